@@ -77,8 +77,20 @@ class ContCheck(vlib.PropertyCheck):
             ctx['cov']['exhaustive'] = False
             ctx['cov']['exhaustive_stratum'] = getattr(self, 'exhaustive_note', None)
         except OSError:
-            pass
-        return []
+            cases = []
+        # stage 2: pointer-level class models (checks/cont_<class>_tie.py, one per class, optional).
+        # Each runs the histories of its class through its own extracted model with the structure
+        # dump enabled (LV_CONT_B=1) and returns [(level, case, message)] for every disagreement.
+        extra = []
+        import importlib
+        for cls in ('array', 'linked_list', 'dlinked_list'):
+            try:
+                tie = importlib.import_module('cont_%s_tie' % cls)
+            except ImportError:
+                continue
+            extra += tie.run(self, ctx, [c for c in cases if c.split(' ')[1] == cls])
+            ctx['cov'].setdefault('class_models', []).append(cls)
+        return extra
 
 
 def all_classes(iface, ops):
